@@ -6,6 +6,7 @@ import (
 	"fmt"
 	"math"
 	"os"
+	"strconv"
 	"strings"
 
 	corestore "cosmossdk.io/core/store"
@@ -421,6 +422,54 @@ func (s *Sys) exec1(toks []string) string {
 			return rInt(v)
 		case "prune":
 			return errStr(t.DeleteVersionsTo(atoi(toks[1])))
+		case "wprune":
+			// a deletion whose physical node-store writes are recorded: the operations on 's' keys in
+			// write order and the positions (number of such writes issued before) at which the write
+			// batch reached the database; wp(<ok|err>;ops=..;fl=..)
+			if s.hooks == nil {
+				return "wp-nowrap(" + errStr(t.DeleteVersionsTo(atoi(toks[1]))) + ")"
+			}
+			present := map[string]bool{}
+			for k := range snapshotDB(s.db) {
+				if len(k) == 13 && k[0] == 's' {
+					present[k] = true
+				}
+			}
+			s.hooks.writes = nil
+			s.hooks.record = true
+			err := t.DeleteVersionsTo(atoi(toks[1]))
+			s.hooks.record = false
+			// effective writes only: a deletion of a key that is absent (from the database and the
+			// batch) at that moment is not counted; positions count effective writes
+			var ops, fl []string
+			n := 0
+			for bi, w := range s.hooks.writes {
+				if bi > 0 && n > 0 && (len(fl) == 0 || fl[len(fl)-1] != strconv.Itoa(n)) {
+					fl = append(fl, strconv.Itoa(n))
+				}
+				for _, o := range w {
+					if len(o.k) == 13 && o.k[0] == 's' {
+						c := "s"
+						if o.del {
+							if !present[string(o.k)] {
+								continue
+							}
+							delete(present, string(o.k))
+							c = "d"
+						} else {
+							present[string(o.k)] = true
+						}
+						ops = append(ops, fmt.Sprintf("%s%d.%d", c, int64(binary.BigEndian.Uint64(o.k[1:9])), binary.BigEndian.Uint32(o.k[9:13])))
+						n++
+					}
+				}
+			}
+			// a last batch without effective node writes: the flush before it is the final one
+			if len(fl) > 0 && fl[len(fl)-1] == strconv.Itoa(n) {
+				fl = fl[:len(fl)-1]
+			}
+			s.hooks.writes = nil
+			return fmt.Sprintf("wp(%s;ops=%s;fl=%s)", errStr(err), strings.Join(ops, ","), strings.Join(fl, ","))
 		case "lvfo":
 			return errStr(t.LoadVersionForOverwriting(atoi(toks[1])))
 		case "r":
@@ -516,7 +565,10 @@ func (s *Sys) exec1(toks []string) string {
 			return s.execExportImport(atoi(toks[1]), toks[2], atoi(toks[3]))
 		case "audit":
 			if toks[1] == "nodes" {
-				return s.auditNodes()
+				return s.auditNodes(true)
+			}
+			if toks[1] == "phys" {
+				return s.auditNodes(false)
 			}
 			if toks[1] == "raw" {
 				return s.auditRaw()
